@@ -779,8 +779,10 @@ package res
 //@ func (s *Service) Logger() (l logger.Logger)
 //@   requires s != nil
 //@   ensures same(l, s.logger)
+//@ func parseRID(rid string) (rname string, q string)
+//@   ensures plain: imp(forall(k, 0, len(rid), rid[k] != '?'), same(rname, rid) && len(q) == 0)
 //@ func (s *Service) Resource(rid string) (r Resource, err error)
-//@   requires s != nil && s.Mux != nil
+//@   requires s != nil && muxOK(s.Mux)
 //@   modifies alloc, res.Match.Handler, res.Match.Listeners, res.Match.Params, res.Match.Group, res.resource.rname, res.resource.pathParams, res.resource.query, res.resource.group, res.resource.h, res.resource.listeners, res.resource.s
 //@   ensures imp(isNil(err), !isNil(r))
 //@
@@ -791,17 +793,19 @@ package res
 //@ func callback.testCB(self ref, h Handler) (ok bool)
 //@   ensures ok == tpred(self, ref(h.Get), len(h.Call), len(h.Auth), ref(h.New), ref(h.Access))
 //@ func contains(n *node, test func(h Handler) bool) (res bool)
-//@   nobody
-//@   requires n != nil
+//@   requires n != nil && isnode[ref(n)] && WF() && test != nil
+//@   callback test testCB
+//@   ghost entry :: use open(n)
+//@   loop 1 invariant WF() && n != nil && isnode[ref(n)] && test != nil
 //@ func (m *Mux) Contains(test func(h Handler) bool) (res bool)
-//@   requires m != nil && m.root != nil && test != nil
+//@   requires muxOK(m) && test != nil
 //@   callback test testCB
 //@   ensures root: imp(m.root.hs != nil && tpred(ref(test), ref(m.root.hs.Get), len(m.root.hs.Call), len(m.root.hs.Auth), ref(m.root.hs.New), ref(m.root.hs.Access)), res)
 //@
 //@ pred defaultOwn(l []string, path string) = imp(len(path) == 0, len(l) == 1 && l[0] == ">")
 //@     && imp(len(path) > 0, len(l) == 2 && l[0] == path && len(l[1]) == len(path) + 2 && l[1][0:len(path)] == path && l[1][len(path)] == '.' && l[1][len(path)+1] == '>')
 //@ func (s *Service) setDefaultOwnership()
-//@   requires s != nil && s.Mux != nil && s.Mux.root != nil
+//@   requires s != nil && muxOK(s.Mux)
 //@   modifies res.Service.resetResources, res.Service.resetAccess, alloc, elems:res.Service.resetResources
 //@   ensures keepR: imp(old(ref(s.resetResources)) != 0, same(s.resetResources, old(s.resetResources)))
 //@   ensures keepA: imp(old(ref(s.resetAccess)) != 0, same(s.resetAccess, old(s.resetAccess)))
@@ -809,7 +813,7 @@ package res
 //@   ensures defA: imp(old(ref(s.resetAccess)) == 0, ref(s.resetAccess) != 0 && (len(s.resetAccess) == 0 || defaultOwn(s.resetAccess, s.Mux.path)))
 //@   ensures frame: forall(k, 0, len(old(s.resetResources)), same(s.resetResources[k], old(s.resetResources[k]))) && forall(k, 0, len(old(s.resetAccess)), same(s.resetAccess[k], old(s.resetAccess[k])))
 //@ func (s *Service) defaultOwnership() (l []string)
-//@   requires s != nil && s.Mux != nil
+//@   requires s != nil && muxOK(s.Mux)
 //@   modifies alloc, elems:res.Service.resetResources
 //@   ensures ref(l) != 0 && ref(l) >= old(nextRef()) && defaultOwn(l, s.Mux.path) && elemsframe(l)
 //@   ensures unchanged("res.Service.resetResources", "res.Service.resetAccess", "res.Mux.path", "res.Service.Mux")
@@ -820,7 +824,7 @@ package res
 //@ # dom(b, a): candidate b justifies skipping candidate a: b covers a, and of two candidates covering each other the first is kept
 //@ pred dom(l []string, b int, a int) = b != a && pmatch(l[b], l[a], 0, 0) && (b < a || !pmatch(l[a], l[b], 0, 0))
 //@ func (s *Service) subscribe() (rerr error)
-//@   requires s != nil && s.Mux != nil && s.Mux.root != nil && !isNil(s.nc)
+//@   requires s != nil && muxOK(s.Mux) && !isNil(s.nc)
 //@   requires path: pvalid0(s.Mux.path) && forall(k, 0, len(s.Mux.path), !wildAt(s.Mux.path, k))
 //@   requires ownR: imp(ref(s.resetResources) != 0, ownOK(s.resetResources))
 //@   requires ownA: imp(ref(s.resetAccess) != 0, ownOK(s.resetAccess))
@@ -860,7 +864,7 @@ package res
 //@       && imp(len(access) == 0, ref(unbox(arg_data, "res.resetEvent").Access) == 0)
 //@   ensures silent: imp(len(resources) == 0 && len(access) == 0, trn == old(trn))
 //@ func (s *Service) ResetAll()
-//@   requires s != nil && !isNil(s.nc) && s.Mux != nil && s.Mux.root != nil
+//@   requires s != nil && !isNil(s.nc) && muxOK(s.Mux)
 //@   modifies all
 //@   callback onError benign
 //@   ghost call Service.reset#1 before :: assert owned: same(arg_resources, s.resetResources) && same(arg_access, s.resetAccess)
@@ -948,7 +952,8 @@ package res
 //@   ensures late: imp(old(qe.expired), qcalls == old(qcalls)) && qnil == old(qnil)
 //@
 //@ func (qe *queryEvent) startQueryListener()
-//@   requires qe != nil && qe.r.s != nil
+//@   # the listener is only started for a query event whose subscription exists
+//@   requires qe != nil && qe.r.s != nil && qe.sub != nil
 //@   modifies all
 //@   callsite select#1 builtin.selectQuery
 //@   loop 1 invariant qe != nil && qe.r.s != nil
@@ -998,12 +1003,15 @@ package res
 //@     && imp(c.hs != nil, 0 < ref(c.hs) && ref(c.hs) < nextRef() && ref(c.hs.group) < nextRef() && forall(k, 0, len(c.hs.group), imp(len(c.hs.group[k].str) == 0, 0 <= c.hs.group[k].idx && c.hs.group[k].idx < nr[ref(c)])))
 //@ #   mown[mp]   the node that owns the children map mp (children maps are not shared)
 //@ ghostvar mown arr
-//@ pred childOK(l *node, c *node, literal bool) = c != nil && 0 < ref(c) && ref(c) < nextRef() && isnode[ref(c)] && nr[ref(c)] == ite(c.mounted, 0, nr[ref(l)] + 1) && imp(nlit[ref(c)], nlit[ref(l)] && literal)
+//@ #   pendm      the root of a Mux that Mount is linking into the tree right now (its `mounted` flag is set after fetch returns); 0 otherwise
+//@ ghostvar pendm ref
+//@ pred childOK(l *node, c *node, literal bool) = c != nil && 0 < ref(c) && ref(c) < nextRef() && isnode[ref(c)] && nr[ref(c)] == ite(c.mounted || ref(c) == pendm, 0, nr[ref(l)] + 1) && nlit[ref(c)] == (nlit[ref(l)] && literal)
 //@ pred nodeInv(n *node) = nodeOK(n) && imp(n.param != nil, childOK(n, n.param, false)) && imp(n.wild != nil, childOK(n, n.wild, false))
 //@     && forallint(k, imp(mapHasId(n.nodes, k), childOK(n, mapValId(n.nodes, k), true)))
 //@     && imp(n.nodes != nil, mown[ref(n.nodes)] == ref(n) && ref(n.nodes) < nextRef())
 //@ pred WF() = forallobj(n, isnode[n], nodeInv(asptr(n, "*res.node")))
-//@ pred muxOK(m *Mux) = m != nil && m.root != nil && isnode[ref(m.root)] && nr[ref(m.root)] == 0 && WF()
+//@ pred muxWF(m *Mux) = m != nil && m.root != nil && isnode[ref(m.root)] && nr[ref(m.root)] == 0 && WF()
+//@ pred muxOK(m *Mux) = muxWF(m) && pendm == 0
 //@
 //@ func (g group) toString(rname string, tokens []string) (s string)
 //@   requires tags: forall(k, 0, len(g), imp(len(g[k].str) == 0, 0 <= g[k].idx && g[k].idx < len(tokens)))
@@ -1047,6 +1055,11 @@ package res
 //@   ensures s <= tokEnd(p, s) && tokEnd(p, s) <= len(p)
 //@   decreases len(p) - s
 //@   use imp(s < len(p) && p[s] != '.', tokEndBounds(p, s+1))
+//@ lemma tokEndDot(p string, s int)
+//@   requires 0 <= s && s <= len(p)
+//@   ensures tokEnd(p, s) == len(p) || p[tokEnd(p, s)] == '.'
+//@   decreases len(p) - s
+//@   use imp(s < len(p) && p[s] != '.', tokEndDot(p, s+1))
 //@ lemma startOfStep(p string, j int)
 //@   requires j >= 0
 //@   ensures startOf(p, j+1) == tokEnd(p, startOf(p, j)) + 1 && startOf(p, 0) == 0
@@ -1087,34 +1100,38 @@ package res
 //@ # NOT DISCHARGED YET: loop1.preserve (WF after linking the new node) times out; fetch is therefore not in the
 //@ # function list of C06 and the registration side is covered by the bounded harness only (DESIGN.md).
 //@ func (m *Mux) fetch(pattern string, mount *node) (rn *node, rparams []pathParam, rmi int)
-//@   requires muxOK(m) && mount == nil && nlit[ref(m.root)] && 0 < ref(m.root) && ref(m.root) < nextRef()
+//@   requires muxWF(m) && nlit[ref(m.root)] && 0 < ref(m.root) && ref(m.root) < nextRef()
+//@   requires plain: imp(mount == nil, pendm == 0)
+//@   # Mount: the root of another Mux is linked in at a path without placeholders or wildcards; its mounted flag is set by Mount afterwards
+//@   requires mounting: imp(mount != nil, pendm == ref(mount) && isnode[ref(mount)] && 0 < ref(mount) && ref(mount) < nextRef() && nr[ref(mount)] == 0 && nlit[ref(mount)] && len(pattern) > 0 && forall(k, 0, len(pattern), !wildAt(pattern, k)))
 //@   requires fresh: forallge(q, nextRef(), !isnode[q])
 //@   modifies alloc, ghost.isnode, ghost.nr, ghost.nlit, ghost.mown, res.node.param, res.node.wild, res.node.nodes, map:res.node.nodes
 //@   may_panic
+//@   opaque startOf tokEnd ndots
 //@   ghost store i#1 after :: use open(l)
+//@   ghost store t#1 after :: use startOfStep(pattern, i - 1)
+//@   ghost store t#1 after :: use startOfStep(pattern, 0)
+//@   ghost store t#1 after :: use tokEndBounds(pattern, startOf(pattern, i))
+//@   ghost store t#1 after :: use tokEndDot(pattern, startOf(pattern, i - 1))
+//@   # intermediate steps for the Mount case: the token is literal
+//@   ghost store t#1 after :: assert tok.start: imp(mount != nil, 0 <= startOf(pattern, i) && startOf(pattern, i) <= len(pattern) && tokStart(pattern, startOf(pattern, i)))
+//@   ghost store l#2 before :: assert tok.first: imp(mount != nil, t[0] == pattern[startOf(pattern, i)])
+//@   ghost store l#2 before :: assert tok.literal: imp(mount != nil, t[0] != '$' && t[0] != '*')
 //@   ghost store l#2 before :: use open(n)
 //@   ghost store l#2 before :: set nlit = store(nlit, ref(n), ite(isnode[ref(n)], nlit[ref(n)], nlit[ref(l)] && t[0] != '$' && t[0] != '*' && t[0] != '>'))
-//@   ghost store l#2 before :: set nr = store(nr, ref(n), ite(n.mounted, 0, nr[ref(l)] + 1))
+//@   ghost store l#2 before :: set nr = store(nr, ref(n), ite(n.mounted || ref(n) == pendm, 0, nr[ref(l)] + 1))
 //@   ghost store l#2 before :: set isnode = store(isnode, ref(n), true)
 //@   ghost store nodes#1 after :: set mown = store(mown, ref(l.nodes), ref(l))
-//@   ghost store l#2 before :: assert p1: nr[ref(n)] >= 0 && imp(n.mounted, nr[ref(n)] == 0 && nlit[ref(n)] && len(n.params) == 0)
-//@   ghost store l#2 before :: assert p2: forall(k, 0, len(n.params), 0 <= n.params[k].idx && n.params[k].idx < nr[ref(n)])
-//@   ghost store l#2 before :: assert p3: imp(n.hs != nil, forall(k, 0, len(n.hs.group), imp(len(n.hs.group[k].str) == 0, 0 <= n.hs.group[k].idx && n.hs.group[k].idx < nr[ref(n)])))
-//@   ghost store l#2 before :: assert p4: imp(n.param != nil, childOK(n, n.param, false))
-//@   ghost store l#2 before :: assert p5: imp(n.wild != nil, childOK(n, n.wild, false))
-//@   ghost store l#2 before :: assert p6: forallint(k, imp(mapHasId(n.nodes, k), childOK(n, mapValId(n.nodes, k), true)))
-//@   ghost store l#2 before :: assert p7: imp(n.nodes != nil, mown[ref(n.nodes)] == ref(n) && ref(n.nodes) < nextRef())
 //@   ghost exit :: use open(l)
-//@   ensures ok: rn != nil && isnode[ref(rn)] && muxOK(m) && nlit[ref(m.root)]
-//@   ensures params: forall(k, 0, len(rparams), 0 <= rparams[k].idx && rparams[k].idx < nr[ref(rn)]) && imp(rn.mounted, len(rparams) == 0) && (ref(rparams) == 0 || ref(rparams) >= old(nextRef()))
-//@   ensures depth: imp(len(pattern) > 0 && !rn.mounted, nr[ref(rn)] + rmi == ndots(pattern, len(pattern)) + 1) && 0 <= rmi
+//@   ensures ok: rn != nil && isnode[ref(rn)] && muxWF(m) && nlit[ref(m.root)] && pendm == old(pendm)
+//@   ensures params: imp(mount == nil, forall(k, 0, len(rparams), 0 <= rparams[k].idx && rparams[k].idx < nr[ref(rn)])) && imp(rn.mounted, len(rparams) == 0) && (ref(rparams) == 0 || ref(rparams) >= old(nextRef()))
+//@   ensures depth: imp(mount == nil && len(pattern) > 0 && !rn.mounted, nr[ref(rn)] + rmi == ndots(pattern, len(pattern)) + 1) && 0 <= rmi
 //@   ensures lits: forall(j, 0, rmi, imp(j < ndots(pattern, len(pattern)) + 1, pattern[startOf(pattern, j)] != '$'))
 //@   ensures lits.mounted: imp(rn.mounted && len(pattern) > 0, forall(j, 0, ndots(pattern, len(pattern)) + 1, pattern[startOf(pattern, j)] != '$'))
-//@   opaque startOf tokEnd ndots
 //@   ensures fresh: forallge(q, nextRef(), !isnode[q])
-//@   loop 1 invariant -1 <= rangeindex__1 && rangeindex__1 < len(tokens) + 0 && WF() && m.root != nil && isnode[ref(m.root)] && nr[ref(m.root)] == 0 && nlit[ref(m.root)]
-//@   loop 1 invariant l != nil && isnode[ref(l)] && 0 < ref(l) && ref(l) < nextRef() && mount == nil && !doMount
-//@   loop 1 invariant 0 <= mountIdx && mountIdx <= rangeindex__1 + 1 && imp(!l.mounted, nr[ref(l)] + mountIdx == rangeindex__1 + 1)
+//@   loop 1 invariant -1 <= rangeindex__1 && rangeindex__1 < len(tokens) + 0 && WF() && m.root != nil && isnode[ref(m.root)] && nr[ref(m.root)] == 0 && nlit[ref(m.root)] && pendm == old(pendm)
+//@   loop 1 invariant l != nil && isnode[ref(l)] && 0 < ref(l) && ref(l) < nextRef() && imp(mount == nil, !doMount) && imp(doMount, rangeindex__1 + 1 >= len(tokens)) && imp(mount != nil && !doMount, nlit[ref(l)])
+//@   loop 1 invariant 0 <= mountIdx && mountIdx <= rangeindex__1 + 1 && imp(mount == nil && !l.mounted, nr[ref(l)] + mountIdx == rangeindex__1 + 1)
 //@   loop 1 invariant forall(k, 0, len(params), 0 <= params[k].idx && params[k].idx + mountIdx < rangeindex__1 + 1) && imp(len(params) > 0, !nlit[ref(l)])
 //@   loop 1 invariant forallge(q, nextRef(), !isnode[q]) && (ref(params) == 0 || ref(params) >= old(nextRef()))
 //@   loop 1 invariant forall(j, 0, rangeindex__1 + 1, len(tokens[j]) > 0 && imp(tokens[j][0] == '$', j >= mountIdx)) && imp(nlit[ref(l)], forall(j, 0, rangeindex__1 + 1, tokens[j][0] != '$'))
@@ -1140,7 +1157,7 @@ package res
 //@ # OnRegister callbacks are client code: assumed not to touch the Mux (they are handed the service, the pattern and the handler)
 //@ func callback.onRegisterCB(self ref, s *Service, p Pattern, h Handler)
 //@   modifies all
-//@   ensures WF() && isnode == old(isnode) && nr == old(nr) && nlit == old(nlit) && unchanged("res.Mux.root", "res.Mux.path", "res.Mux.parent", "res.Mux.s", "res.Mux.mountp") && nextRef() >= old(nextRef())
+//@   ensures WF() && isnode == old(isnode) && nr == old(nr) && nlit == old(nlit) && pendm == old(pendm) && unchanged("res.Mux.root", "res.Mux.path", "res.Mux.parent", "res.Mux.s", "res.Mux.mountp") && nextRef() >= old(nextRef())
 //@ func (m *Mux) registeredService() (s *Service)
 //@   requires m != nil
 //@ func (m *Mux) FullPath() (p string)
@@ -1166,13 +1183,15 @@ package res
 //@   may_panic
 //@   ensures ok: muxOK(m)
 //@ func NewMux(path string) (m *Mux)
-//@   requires WF() && forallge(q, nextRef(), !isnode[q])
+//@   requires WF() && pendm == 0 && forallge(q, nextRef(), !isnode[q])
 //@   modifies alloc, ghost.isnode, ghost.nr, ghost.nlit
 //@   may_panic
 //@   ghost exit :: set isnode = store(isnode, ref(m.root), true)
 //@   ghost exit :: set nr = store(nr, ref(m.root), 0)
 //@   ghost exit :: set nlit = store(nlit, ref(m.root), true)
 //@   ensures ok: muxOK(m) && nlit[ref(m.root)] && 0 < ref(m.root) && ref(m.root) < nextRef() && same(m.path, path) && forallge(q, nextRef(), !isnode[q])
+//@   ensures ghosts: isnode == store(old(isnode), ref(m.root), true) && nr == store(old(nr), ref(m.root), 0) && nlit == store(old(nlit), ref(m.root), true)
+//@   ensures new: ref(m) >= old(nextRef()) && ref(m.root) >= old(nextRef()) && len(m.root.params) == 0 && !m.root.mounted && m.parent == nil && m.s == nil
 //@ # options only fill in the Handler they are given (Access, GetModel, Call, ... in option.go)
 //@ trusted func (o Option) SetOption(h *Handler)
 //@   modifies *h
@@ -1183,3 +1202,46 @@ package res
 //@   may_panic
 //@   ensures ok: muxOK(m)
 //@   loop 1 invariant -1 <= rangeindex && rangeindex < len(hf) + 0 && muxOK(m) && nlit[ref(m.root)] && 0 < ref(m.root) && ref(m.root) < nextRef() && forallge(q, nextRef(), !isnode[q]) && forall(k, 0, len(hf), !isNil(hf[k]))
+//@
+//@ # ---- Mount links the root of another Mux into the tree (paths have no placeholders or wildcards)
+//@ # callOnRegister only walks the tree and calls OnRegister callbacks (client code): used through its contract
+//@ lemma mergeNoWild(a string, b string, r string)
+//@   requires forall(k, 0, len(a), !wildAt(a, k)) && forall(k, 0, len(b), !wildAt(b, k))
+//@   requires len(a) > 0 && len(b) > 0 && len(r) == len(a) + 1 + len(b) && r[0:len(a)] == a && r[len(a)] == '.' && r[len(a)+1:] == b
+//@   ensures forall(k, 0, len(r), !wildAt(r, k))
+//@ lemma sameNoWild(a string, r string)
+//@   requires forall(k, 0, len(a), !wildAt(a, k)) && r == a
+//@   ensures forall(k, 0, len(r), !wildAt(r, k))
+//@ func (m *Mux) callOnRegister()
+//@   nobody
+//@   requires m != nil
+//@   modifies all
+//@   ensures WF() && isnode == old(isnode) && nr == old(nr) && nlit == old(nlit) && pendm == old(pendm) && unchanged("res.Mux.root", "res.Mux.path", "res.Mux.parent", "res.Mux.mountp", "res.node.mounted") && nextRef() >= old(nextRef())
+//@ func (m *Mux) Mount(path string, sub *Mux)
+//@   requires muxOK(m) && nlit[ref(m.root)] && 0 < ref(m.root) && ref(m.root) < nextRef()
+//@   requires submux: sub != nil && sub != m && sub.root != nil && sub.root != m.root && isnode[ref(sub.root)] && 0 < ref(sub.root) && ref(sub.root) < nextRef() && nr[ref(sub.root)] == 0 && nlit[ref(sub.root)] && len(sub.root.params) == 0
+//@   requires subpath: forall(k, 0, len(sub.path), !wildAt(sub.path, k))
+//@   requires fresh: forallge(q, nextRef(), !isnode[q])
+//@   modifies all
+//@   may_panic
+//@   ghost call Mux.fetch#1 before :: set pendm = ref(sub.root)
+//@   ghost call Mux.fetch#1 before :: use mergeNoWild(path, sub.path, spath)
+//@   ghost call Mux.fetch#1 before :: use sameNoWild(path, spath)
+//@   ghost call Mux.fetch#1 before :: use sameNoWild(sub.path, spath)
+//@   ghost call Mux.fetch#1 before :: assert a1: len(spath) > 0
+//@   ghost call Mux.fetch#1 before :: assert a2: forall(k, 0, len(spath), !wildAt(spath, k))
+//@   ghost store mounted#1 after :: use open(sub.root)
+//@   ghost store mounted#1 after :: set pendm = 0
+//@   ensures ok: muxOK(m) && sub.root.mounted
+//@ # the Route callback is client code: it registers handlers on the new Mux through its methods, each of which keeps the invariant
+//@ func callback.routeCB(self ref, sub *Mux)
+//@   requires muxOK(sub)
+//@   modifies all
+//@   ensures muxOK(sub) && nlit[ref(sub.root)] && len(sub.root.params) == 0 && !sub.root.mounted && unchanged("res.Mux.root", "res.Mux.path", "res.Mux.parent", "res.Mux.s") && forallge(q, nextRef(), !isnode[q]) && nextRef() >= old(nextRef()) && forallint(x, imp(x < old(nextRef()), isnode[x] == old(isnode)[x] && nr[x] == old(nr)[x] && nlit[x] == old(nlit)[x]))
+//@ func (m *Mux) Route(subpath string, fn func(m *Mux)) (sub *Mux)
+//@   requires muxOK(m) && nlit[ref(m.root)] && 0 < ref(m.root) && ref(m.root) < nextRef()
+//@   requires fresh: forallge(q, nextRef(), !isnode[q])
+//@   modifies all
+//@   may_panic
+//@   callback fn routeCB
+//@   ensures ok: muxOK(m) && sub != nil && sub.root.mounted
